@@ -21,8 +21,13 @@
          positive size (hypothesis `pos_records`, S13): every tracer-initiated open callback entry
          finds packet_is_open = 0 and the closest preceding is_backend_full answer is "not full";
          every tracer-initiated close callback entry finds packet_is_open = 1.  Holds for every
-         reachable world, model-error worlds included.  Both hypotheses are necessary:
-         C06_protocol_without_pos_records_refuted, C06_protocol_without_opened_first_refuted. *)
+         reachable world, model-error worlds included.  Third hypothesis `no_eager`: no oracle
+         answer is "eager", i.e. the platform's close callback never opens the next packet itself
+         (double buffering); on an eager platform the tracer's subsequent open callback finds the
+         packet already open, by the platform's own doing.  All three hypotheses are necessary:
+         C06_protocol_without_pos_records_refuted, C06_protocol_without_opened_first_refuted,
+         C06_protocol_with_eager_platform_refuted.
+   Everything else in this file holds for eager platforms too, statements unchanged. *)
 From Coq Require Import List Arith Bool ZArith String Lia.
 Import ListNotations.
 From BT.Base Require Import Bits.
@@ -101,6 +106,7 @@ Print Assumptions C06_fini_flushes.
 Theorem C06_callback_protocol :
   forall d buf pcargs oracle h,
     pos_records d ->
+    Forall (fun a => a_eager a = false) oracle ->
     c_open (w_c (run d buf pcargs oracle [COpen])) = true ->
     proto None (w_log (run d buf pcargs oracle (COpen :: h))).
 Proof. exact run_proto. Qed.
@@ -110,12 +116,13 @@ Print Assumptions C06_callback_protocol.
    `open; trace` invokes the open callback while the packet is open *)
 Theorem C06_protocol_without_pos_records_refuted :
   exists d buf pcargs oracle h,
+    Forall (fun a => a_eager a = false) oracle /\
     c_open (w_c (run d buf pcargs oracle [COpen])) = true /\
     w_err (run d buf pcargs oracle (COpen :: h)) = false /\
     In (ECb 1 true true) (w_log (run d buf pcargs oracle (COpen :: h))) /\
     ~ proto None (w_log (run d buf pcargs oracle (COpen :: h))).
 Proof.
-  exists ex_dz, 1, [], [], [CTrace 0 [VArr []]].
+  exists ex_dz, 1, [], [], [CTrace 0 [VArr []]]. split; [constructor|].
   split; [vm_compute; reflexivity|]. split; [vm_compute; reflexivity|].
   split; [vm_compute; repeat (first [left; reflexivity | right])|].
   intros H. vm_compute in H. decompose [and] H.
@@ -127,7 +134,8 @@ Print Assumptions C06_protocol_without_pos_records_refuted.
    close callback while no packet is open *)
 Theorem C06_protocol_without_opened_first_refuted :
   exists d buf pcargs oracle h,
-    pos_records d /\ w_err (run d buf pcargs oracle h) = false /\
+    pos_records d /\ Forall (fun a => a_eager a = false) oracle /\
+    w_err (run d buf pcargs oracle h) = false /\
     In (ECb 2 true false) (w_log (run d buf pcargs oracle h)) /\
     ~ proto None (w_log (run d buf pcargs oracle h)).
 Proof.
@@ -137,12 +145,38 @@ Proof.
     pose proof (align_up_ge a 8 ltac:(lia)).
     pose proof (align_up_ge (align_up a 8) 8 ltac:(lia)).
     pose proof (align_up_ge (align_up (align_up a 8) 8 + 8) 8 ltac:(lia)). lia. }
+  split; [constructor|].
   split; [vm_compute; reflexivity|].
   split; [vm_compute; repeat (first [left; reflexivity | right])|].
   intros H. vm_compute in H. decompose [and] H.
   match goal with X : 2 = 2 -> false = true |- _ => specialize (X eq_refl); discriminate X end.
 Qed.
 Print Assumptions C06_protocol_without_opened_first_refuted.
+
+(* with an eager platform: 17-byte buffer, fifth record does not fit; the close callback of the
+   packet switch (8th oracle answer) hands the packet over and opens the next one itself; the
+   tracer then asks is_backend_full and invokes the open callback on the open packet *)
+Theorem C06_protocol_with_eager_platform_refuted :
+  exists d buf pcargs oracle h,
+    pos_records d /\
+    c_open (w_c (run d buf pcargs oracle [COpen])) = true /\
+    w_err (run d buf pcargs oracle (COpen :: h)) = false /\
+    In (ECb 1 true true) (w_log (run d buf pcargs oracle (COpen :: h))) /\
+    ~ proto None (w_log (run d buf pcargs oracle (COpen :: h))).
+Proof.
+  exists ex_d2, 17, [], (repeat default_ans 7 ++ [mk_ans false None None 1 true])%list,
+         [CTrace 0 []; CTrace 0 []; CTrace 0 []; CTrace 0 []; CTrace 0 []]. split.
+  { intros e args a a' Hin Hs. destruct Hin as [<-|[]].
+    vm_compute rec_parts in Hs. cbn -[align_up] in Hs. injection Hs as <-.
+    pose proof (align_up_ge a 8 ltac:(lia)).
+    pose proof (align_up_ge (align_up a 8) 8 ltac:(lia)).
+    pose proof (align_up_ge (align_up (align_up a 8) 8 + 8) 8 ltac:(lia)). lia. }
+  split; [vm_compute; reflexivity|]. split; [vm_compute; reflexivity|].
+  split; [vm_compute; repeat (first [left; reflexivity | right])|].
+  intros H. vm_compute in H. decompose [and] H.
+  match goal with X : 1 = 1 -> true = false /\ _ |- _ => destruct (X eq_refl) as [Y _]; discriminate Y end.
+Qed.
+Print Assumptions C06_protocol_with_eager_platform_refuted.
 
 (* non-vacuity of (c): ex_d2 has positive-size records, its first opening takes effect, and the
    history contains tracer-initiated open and close callbacks *)
@@ -155,11 +189,13 @@ Proof.
   pose proof (align_up_ge (align_up (align_up a 8) 8 + 8) 8 ltac:(lia)). lia.
 Qed.
 Example C06_example_protocol :
+  Forall (fun a => a_eager a = false) (@nil ans) /\
   c_open (w_c (run ex_d2 16 [] [] [COpen])) = true /\
   w_err (run ex_d2 16 [] [] ex_h2) = false /\
   In (ECb 1 true false) (w_log (run ex_d2 16 [] [] ex_h2)) /\
   In (ECb 2 true true) (w_log (run ex_d2 16 [] [] ex_h2)).
 Proof.
+  split; [constructor|].
   split; [vm_compute; reflexivity|]. split; [vm_compute; reflexivity|].
   split; vm_compute; repeat (first [left; reflexivity | right]).
 Qed.
